@@ -73,7 +73,7 @@ var c26Model = porcupine.NondeterministicModel{
 		set := map[string]bool{}
 		for _, s := range pre {
 			switch in.Op {
-			case "create":
+			case "create", "expose":
 				if ok && s == "A" {
 					set["L"] = true
 				}
@@ -113,7 +113,7 @@ func init() {
 	register(&Property{
 		ID:    "C26",
 		Level: "exploration",
-		Rule: "API histories on independent pipes.NewNamed() registries (40 histories run concurrently per worker, each waits out the real 2 s grace period): 3 names, 6-20 operations (create, close, delete, get, dump) from 1-4 goroutines, with double close, delete-after-close, close-after-delete, create during and after the grace period (PRNG sleeps up to 2.2 s), get of missing names; plus murex programs using `pipe`, `!pipe`, `<name>` and `runtime --pipes` with the worker kept idle for 2.6 s afterwards; " +
+		Rule: "API histories on independent pipes.NewNamed() registries (40 histories run concurrently per worker, each waits out the real 2 s grace period): 3 names, 6-20 operations (create, expose = ExposePipe of an existing stream as onCommandCompletion does, close, delete, get, dump) from 1-4 goroutines, with double close, delete-after-close, close-after-delete, create during and after the grace period (PRNG sleeps up to 2.2 s), get of missing names; plus murex programs using `pipe`, `!pipe`, `<name>` and `runtime --pipes` with the worker kept idle for 2.6 s afterwards; " +
 			"plus tight-race trials (8 goroutines released together from a spin barrier call CreatePipe with one name: exactly one may succeed and the name must then resolve); oracle: (1) the worker process survives and prints no crash text; (2) per name, porcupine against a nondeterministic model (create ok iff absent; close/delete/get ok iff present; a closed pipe stays visible until it expires at some point of its grace period); (3) after quiescence every closed name is gone and every other created name is still present; non-trivial = a history closes or deletes a name that is closing, or >= 2 goroutines touch one name; distinct by history description",
 		Assumptions: []string{"expiry may happen at any moment after Close (the statement gives no lower bound); it must have happened 2.6 s after the last operation", "a porcupine timeout is inconclusive"},
 		Technique:   "runtime monitoring: recorded concurrent histories checked per name for linearizability (porcupine v1.3.0, nondeterministic model) plus quiescent-state and process-survival checks",
@@ -133,6 +133,15 @@ func init() {
 					total := 6 + r.Intn(15)
 					hist := c26Hist{ID: hid, Procs: make([][]c26Op, np)}
 					longSleepUsed := false
+					if h%8 == 5 {
+						// a name registered, closed, deleted and registered again inside the grace period of
+						// the first registration: the pending timer must leave the new registration alone
+						reg := func() c26Op { return c26Op{Op: []string{"create", "expose"}[r.Intn(2)], Name: names[0]} }
+						hist.Procs[0] = append(hist.Procs[0], reg(), c26Op{Op: "close", Name: names[0]}, c26Op{Op: "delete", Name: names[0]}, reg())
+						if r.Intn(2) == 0 {
+							total = r.Intn(4) // and little else
+						}
+					}
 					for k := 0; k < total; k++ {
 						p := r.Intn(np)
 						name := names[r.Intn(3)]
@@ -141,8 +150,12 @@ func init() {
 						}
 						var op c26Op
 						switch c := r.Intn(20); {
-						case c < 6:
+						case c < 4:
 							op = c26Op{Op: "create", Name: name}
+						case c < 6:
+							// the other way a name gets registered: an existing stream exposed under it
+							// (as onCommandCompletion does)
+							op = c26Op{Op: "expose", Name: name}
 						case c < 11:
 							op = c26Op{Op: "close", Name: name}
 						case c < 14:
